@@ -528,3 +528,167 @@ func (in *Interp) indexByte(r Rope, off, n, c *Term) Value {
 	}
 	return res
 }
+
+// strings.Builder{addr *Builder; buf []byte}: modelled on field 1.
+func (in *Interp) builderBuf(p Ptr) Ptr { return in.fieldPtr(p, 1) }
+
+var byteSliceT = types.NewSlice(types.Typ[types.Uint8])
+
+func init() {
+	libModels["(*strings.Builder).Write"] = func(in *Interp, fn *ssa.Function, args []Value) Value {
+		bp := in.builderBuf(args[0].(Ptr))
+		cur := in.load(bp, byteSliceT).(Slice)
+		in.store(bp, in.appendBuiltin(cur, args[1], byteSliceT))
+		return Tuple{args[1].(Slice).lenOr0(), Iface{}}
+	}
+	libModels["(*strings.Builder).WriteString"] = func(in *Interp, fn *ssa.Function, args []Value) Value {
+		bp := in.builderBuf(args[0].(Ptr))
+		cur := in.load(bp, byteSliceT).(Slice)
+		in.store(bp, in.appendBuiltin(cur, args[1], byteSliceT))
+		return Tuple{args[1].(Str).n, Iface{}}
+	}
+	libModels["(*strings.Builder).WriteByte"] = func(in *Interp, fn *ssa.Function, args []Value) Value {
+		bp := in.builderBuf(args[0].(Ptr))
+		cur := in.load(bp, byteSliceT).(Slice)
+		a := newSArrZero(8, C64(1))
+		a.set(C64(0), args[1].(*Term))
+		o := in.newObject(byteSliceT, a, "byte")
+		in.store(bp, in.appendBuiltin(cur, Slice{obj: o, off: C64(0), len: C64(1), cap: C64(1)}, byteSliceT))
+		return Iface{}
+	}
+	libModels["(*strings.Builder).WriteRune"] = func(in *Interp, fn *ssa.Function, args []Value) Value {
+		r := args[1].(*Term)
+		in.p.addPCChecked(ULt(r, Const(32, 0x80)), "non-ASCII rune in strings.Builder.WriteRune (engine restriction)")
+		bp := in.builderBuf(args[0].(Ptr))
+		cur := in.load(bp, byteSliceT).(Slice)
+		a := newSArrZero(8, C64(1))
+		a.set(C64(0), Extract(r, 7, 0))
+		o := in.newObject(byteSliceT, a, "byte")
+		in.store(bp, in.appendBuiltin(cur, Slice{obj: o, off: C64(0), len: C64(1), cap: C64(1)}, byteSliceT))
+		return Tuple{C64(1), Iface{}}
+	}
+	libModels["(*strings.Builder).String"] = func(in *Interp, fn *ssa.Function, args []Value) Value {
+		cur := in.load(in.builderBuf(args[0].(Ptr)), byteSliceT).(Slice)
+		return in.convert(cur, byteSliceT, types.Typ[types.String])
+	}
+	libModels["(*strings.Builder).Len"] = func(in *Interp, fn *ssa.Function, args []Value) Value {
+		return in.load(in.builderBuf(args[0].(Ptr)), byteSliceT).(Slice).lenOr0()
+	}
+	libModels["(*strings.Builder).Reset"] = func(in *Interp, fn *ssa.Function, args []Value) Value {
+		in.store(in.builderBuf(args[0].(Ptr)), Slice{})
+		return nil
+	}
+	libModels["(*strings.Builder).Grow"] = func(in *Interp, fn *ssa.Function, args []Value) Value { return nil }
+}
+
+// --- encoding/binary.Read / Write for (named) fixed-size integers ---
+// The library handles unnamed integer pointers on a fast path and everything
+// else through reflection; the model covers both without reflect.
+
+func (in *Interp) orderIsBig(order Value) bool {
+	iv := order.(Iface)
+	if iv.t == nil {
+		panic(engineError{"binary: nil byte order"})
+	}
+	switch iv.t.String() {
+	case "encoding/binary.bigEndian":
+		return true
+	case "encoding/binary.littleEndian":
+		return false
+	}
+	panic(engineError{"binary: unsupported byte order " + iv.t.String()})
+}
+
+func (in *Interp) callIface(recv Iface, method string, args ...Value) Value {
+	if recv.t == nil {
+		in.panicGo("nil dereference", "method call on nil interface ("+method+")")
+	}
+	var pkg *types.Package
+	m := in.ld.prog.LookupMethod(recv.t, pkg, method)
+	if m == nil {
+		panic(engineError{"no method " + method + " on " + recv.t.String()})
+	}
+	return in.callFn(m, append([]Value{recv.v}, args...), nil)
+}
+
+func (in *Interp) newByteSlice(n uint64) Slice {
+	o := in.newObject(byteSliceT, newSArrZero(8, C64(n)), "tmp")
+	return Slice{obj: o, off: C64(0), len: C64(n), cap: C64(n)}
+}
+
+func binaryRead(in *Interp, fn *ssa.Function, args []Value) Value {
+	data := args[2].(Iface)
+	if data.t != nil {
+		if pt, ok := data.t.Underlying().(*types.Pointer); ok {
+			et := pt.Elem()
+			w := intWidth(et)
+			isBool := isBoolT(et)
+			if w > 0 || isBool {
+				if isBool {
+					w = 8
+				}
+				big := in.orderIsBig(args[1])
+				buf := in.newByteSlice(uint64(w / 8))
+				rf := in.ld.prog.ImportedPackage("io").Func("ReadFull")
+				res := in.callFn(rf, []Value{args[0], buf}, nil).(Tuple)
+				if !in.p.Decide(in.valEq(res[1], Iface{})) {
+					return res[1]
+				}
+				a := in.sarrOf(buf)
+				var v *Term
+				for i := 0; i < w/8; i++ {
+					b := a.get(C64(uint64(i)))
+					if v == nil {
+						v = b
+					} else if big {
+						v = Concat(v, b)
+					} else {
+						v = Concat(b, v)
+					}
+				}
+				if isBool {
+					in.store(data.v.(Ptr), Not(Eq(v, Const(8, 0))))
+				} else {
+					in.store(data.v.(Ptr), v)
+				}
+				return Iface{}
+			}
+		}
+	}
+	return in.callFunction(fn, args, nil)
+}
+
+func binaryWrite(in *Interp, fn *ssa.Function, args []Value) Value {
+	data := args[2].(Iface)
+	if data.t != nil {
+		t := data.t
+		v := data.v
+		if pt, ok := t.Underlying().(*types.Pointer); ok && intWidth(pt.Elem()) > 0 {
+			v = in.load(v.(Ptr), pt.Elem())
+			t = pt.Elem()
+		}
+		if w := intWidth(t); w > 0 {
+			big := in.orderIsBig(args[1])
+			x := v.(*Term)
+			buf := in.newByteSlice(uint64(w / 8))
+			a := in.sarrOf(buf)
+			for i := 0; i < w/8; i++ {
+				var b *Term
+				if big {
+					b = Extract(x, w-1-8*i, w-8-8*i)
+				} else {
+					b = Extract(x, 8*i+7, 8*i)
+				}
+				a.set(C64(uint64(i)), b)
+			}
+			res := in.callIface(args[0].(Iface), "Write", buf).(Tuple)
+			return res[1]
+		}
+	}
+	return in.callFunction(fn, args, nil)
+}
+
+func init() {
+	libModels["encoding/binary.Read"] = binaryRead
+	libModels["encoding/binary.Write"] = binaryWrite
+}
